@@ -85,9 +85,12 @@ func (t *Tokenizer) Parse(buf []byte, handler oj.TokenHandler) (err error) {
 	}()
 	// Skip BOM if present.
 	if 3 < len(buf) && buf[0] == 0xEF {
-		if buf[1] == 0xBB && buf[2] == 0xBF {
+		switch {
+		case buf[1] == 0xBB && buf[2] == 0xBF:
 			t.tokenizeBuffer(buf[3:], true)
-		} else {
+		case buf[1]&0xC0 == 0x80 && buf[2]&0xC0 == 0x80: // a character that starts with 0xEF, not a BOM
+			t.tokenizeBuffer(buf, true)
+		default:
 			return fmt.Errorf("expected BOM at 1:3")
 		}
 	} else {
